@@ -162,7 +162,7 @@ def run_in_child(fn, arg, timeout: float = CHILD_TIMEOUT):
 
 
 def run_fresh(fn_qualname: str, arg, hashseed: int = 0, coop_locks: bool = False,
-              timeout: float = 120.0, extra_env: dict | None = None):
+              timeout: float = 120.0, extra_env: dict | None = None, bootstrap: bool = True):
     """Run ``module:function(arg)`` in a brand-new interpreter (spawn executor)."""
     env = dict(os.environ)
     env["PYTHONHASHSEED"] = str(hashseed)
@@ -175,7 +175,7 @@ def run_fresh(fn_qualname: str, arg, hashseed: int = 0, coop_locks: bool = False
         "import sys, pickle; sys.path.insert(0, %r); "
         "from sim import core; core._fresh_main()" % VERIF_DIR
     )
-    payload = pickle.dumps((fn_qualname, arg, coop_locks))
+    payload = pickle.dumps((fn_qualname, arg, coop_locks if bootstrap else None))
     try:
         cp = subprocess.run(
             [sys.executable, "-s", "-c", prog],
@@ -203,7 +203,8 @@ def _fresh_main():
     fn_qualname, arg, coop = pickle.loads(sys.stdin.buffer.read())
     from . import boot
 
-    boot.bootstrap(coop_locks=coop)
+    if coop is not None:  # None: the function bootstraps itself (e.g. after starting a coverage tracer)
+        boot.bootstrap(coop_locks=coop)
     modname, fname = fn_qualname.split(":")
     fn = getattr(importlib.import_module(modname), fname)
     out = os.dup(1)
